@@ -96,8 +96,6 @@ Inductive label :=
 | TConnRefuse (i : nat)  (* (tau) 2xx to a CONNECT written with Connection: close while closing: no tunnel, no trace *)
 | SockClose (i : nat)    (* conn.Close() called on connection i by its handler (deferred) *)
 | SockCloseC (i : nat)   (* conn.Close() called on connection i by Close (one item of its loop) *)
-| TSilentCloseC (i : nat) (* (tau) an item of Close's loop for a connection whose handler has closed it already:
-                             a *tls.Conn returns net.ErrClosed without touching the socket again *)
 | TSilentClose (i : nat) (* (tau) the handler's deferred conn.Close() on a socket that Close has closed already:
                             a *tls.Conn returns net.ErrClosed without touching the socket again *)
 | TDec (i : nat)         (* (tau) deferred cnt-- *)
@@ -125,7 +123,6 @@ Inductive label :=
 Definition is_tau (l : label) : bool :=
   match l with
   | TSvChk | TSvErr | TRegister _ | TChkConn _ | THsFail _ | TChkReq _ | TDecide _ | TConnRefuse _ | TSilentClose _
-  | TSilentCloseC _
   | TDec _ | TDelete _
   | TSdLock | TSdOut _ | TClLock | TClOut => true
   | _ => false
@@ -286,17 +283,10 @@ Definition stepf (g : gst) (l : label) : option gst :=
       (* one item of Close's `for conn := range p.conns { conn.Close() }` *)
       match getc g i, cl g with
       | Some c, ClHolding todo =>
-          if mem_nat i todo
+          (* Close closes a *tls.Conn and then the socket underneath it: a registered connection can be
+             closed more than once by the loop; only the first time takes it off the list *)
+          if mem_nat i todo || mem_nat i (regs g)
           then Some (mkg (closing g) (mu g) (cnt g) (regs g) (upd (conns g) i (mark_closed c))
-                         (sd g) (ClHolding (remove_nat i todo)) (sv g) (lopen g) (ctx_exp g))
-          else None
-      | _, _ => None
-      end
-  | TSilentCloseC i =>
-      match getc g i, cl g with
-      | Some c, ClHolding todo =>
-          if mem_nat i todo && sock_closed c
-          then Some (mkg (closing g) (mu g) (cnt g) (regs g) (conns g)
                          (sd g) (ClHolding (remove_nat i todo)) (sv g) (lopen g) (ctx_exp g))
           else None
       | _, _ => None
